@@ -110,10 +110,33 @@ def run(ctx):
     coverage(ctx, hs)
 
 
+def lock_shapes(o):
+    """(targets with >= 2 stored associated objects, targets whose LOWEST-ID associated object is not a live lock
+    while a higher-ID one is) in one observed state -- the situation in which "locked" is decided by an entry of the
+    association index that is neither the first nor the only one."""
+    multi = hidden = 0
+    for c in o.get("cnrs", []):
+        if not c.get("present") or c.get("cgc"):
+            continue
+        marked = {g[0] for g in c["garb"] if g[1] == 0}
+        by = {}
+        for x in sorted(c["objs"], key=lambda x: x["id"]):
+            if x["as"]:
+                live = x["t"] == 2 and (x["exp"] < 0 or x["exp"] >= o["epoch"]) and x["id"] not in marked
+                by.setdefault(x["as"], []).append(live)
+        for lives in by.values():
+            if len(lives) >= 2:
+                multi += 1
+                if not lives[0] and any(lives[1:]):
+                    hidden += 1
+    return multi, hidden
+
+
 def coverage(ctx, hs):
     steps = sum(len(h["steps"]) for h in hs)
     digests, nontrivial = set(), 0
     hist = {"locked_addresses": 0, "protected_expired": 0}
+    shapes = {"states_with_a_target_of_2+_associated_objects": 0, "states_where_the_lowest_ID_associated_object_is_no_live_lock_but_a_higher_one_is": 0}
     res_hist = {}
     for h in hs:
         for op, st in zip(h["ops"], h["steps"]):
@@ -127,6 +150,9 @@ def coverage(ctx, hs):
             digests.add(d)
             nl = sum(sum(r) for r in o["locked"])
             hist["locked_addresses"] += nl
+            mu, hi = lock_shapes(o)
+            shapes["states_with_a_target_of_2+_associated_objects"] += 1 if mu else 0
+            shapes["states_where_the_lowest_ID_associated_object_is_no_live_lock_but_a_higher_one_is"] += 1 if hi else 0
             if nl and any(c["garb"] or c["cgc"] for c in o["cnrs"]):
                 nontrivial += 1
     lims = {}
@@ -139,13 +165,17 @@ def coverage(ctx, hs):
         "rule": "histories from one splitmix64 stream (VERIF_SEED) over 2 containers x 8 object IDs, headers fixed per ID within a history "
                 "(regular / tombstone / lock with expirations 0-7 around the epochs the history passes), operations: Shard.Put, forced "
                 "marks (default/redundant), container removal, epoch source changes, GC events (also lagging / repeated / older), GC passes "
-                "with batch size 1-5 or 100; one evaluation = one operation followed by a full observation; distinct by digest; "
+                "with batch size 1-5 or 100; every fourth history opens with ONE target carrying three associated objects 3<5<7 of mixed "
+                "liveness in both ID orders (live / expired-not-collected / garbage-marked / redundant-marked LOCK, non-LOCK with the "
+                "association attribute), the epoch moved past the early expirations without a GC event, a tombstone attempt and "
+                "(half of them) a GC event + pass; one evaluation = one operation followed by a full observation; distinct by digest; "
                 "non-trivial = at least one locked address while some garbage mark or removed container exists",
         "histories": len(hs),
         "traces_validated_against_impl": len(hs),
         "op_histogram": G.op_hist(hs),
         "put_result_histogram(type:class 0 ok 1 removed 2 expired 3 locked 4 lock-non-regular 5 lock-removal 6 other)": res_hist,
         "batch_size_histogram": lims,
+        "association_shapes(distinct observed states)": shapes,
         "samples": [{"lim": sample["lim"], "ops": sample["ops"][:6], "results": [s["res"] for s in sample["steps"][:6]],
                      "get_after_6": sample["steps"][min(5, len(sample["steps"]) - 1)]["obs"]["get"]}] if sample else [],
     })
